@@ -450,7 +450,12 @@ func (s *Sim) execFn(fr *Frame, st *State) []*State {
 					}
 					states = nil
 				case *ssa.Panic:
-					states = nil // panic exits are excluded (misuse / invariant-violation paths)
+					// panic exits are excluded from the path rules (misuse / invariant-violation paths), but a
+					// panic must not leak a lock: the deferred calls run, and what they leave held is reported (PX)
+					for _, x := range states {
+						s.onPanic(fr, t, x)
+					}
+					states = nil
 				default:
 					var next []*State
 					for _, x := range states {
@@ -979,6 +984,7 @@ func (s *Sim) release(fr *Frame, st *State, lv Val, mode byte, in ssa.Instructio
 	key, class := lv.Key(), s.lockClass(lv)
 	fn := in.Parent()
 	s.checkDirtyAtRelease(fn, st, key, in)
+	s.clearMarks(st, key)
 	ok := st.remove(key, mode)
 	det := "releases " + class + " (" + string(mode) + ") which is held"
 	if !ok {
@@ -1112,6 +1118,7 @@ func (s *Sim) broadcast(fr *Frame, st *State, cv Val, in ssa.Instruction) {
 			return
 		}
 	}
+	s.event(fr, st, "broadcast:"+condName(cv), in)
 	det := "holds " + how + " at Broadcast/Signal"
 	if !ok {
 		det = "Broadcast/Signal on " + condName(cv) + " without holding its locker " + s.lockClass(lk) + "; held " + st.heldString() + " (a wake-up can be lost between predicate evaluation and Wait)"
@@ -1155,6 +1162,7 @@ func (s *Sim) condWait(fr *Frame, st *State, cv Val, in ssa.Instruction) {
 	}
 	s.ob("P", fn, subject, ok, det, in)
 	s.checkDirtyAtRelease(fn, st, lk.Key(), in)
+	s.clearMarks(st, lk.Key())
 	s.blocking(fr, st, "condwait", in, lk.Key())
 	// WL: in a loop
 	s.ob("WL", fn, subject, s.P.InCycle(in), pick("", map[bool]string{true: "Wait lies on a CFG cycle (predicate re-evaluated)", false: "Cond.Wait is not inside a loop: a spurious or stale wake-up is taken for the predicate"}[s.P.InCycle(in)]), in)
@@ -1249,6 +1257,9 @@ func (s *Sim) access(fr *Frame, st *State, a Val, write bool, in ssa.Instruction
 	subject := kind + ":" + field
 	if elems > 0 {
 		subject += "[]"
+	}
+	if !s.isFreshRoot(st, a) {
+		s.event(fr, st, subject, in)
 	}
 	switch fr0.Class {
 	case ClsGuarded:
@@ -1921,6 +1932,7 @@ func (s *Sim) onGo(fr *Frame, st *State, g *ssa.Go) {
 			s.ob("HO", g.Parent(), "handoff:"+ho.Class, found, det, g)
 		}
 	}
+	s.event(fr, st, "go:"+FuncName(fnv.Fn), g)
 	s.Spawns = append(s.Spawns, SpawnInfo{Kind: "go", Func: FuncName(fnv.Fn), Spawner: FuncName(g.Parent()), Pos: s.P.InstrPos(g), Held: st.heldString()})
 	s.AddRoot(r)
 	for _, b := range fnv.Bind {
@@ -2044,6 +2056,7 @@ func (s *Sim) doCall(fr *Frame, in ssa.Instruction, c *ssa.CallCommon, st *State
 		}
 	}
 	fnv, args, _ := s.resolveCallee(fr, c)
+	s.event(fr, st, "call:"+s.P.CalleeName(c), in)
 	if fnv.K == KFunc {
 		callee := fnv.Fn
 		name := callee.String()
@@ -2188,6 +2201,9 @@ func (s *Sim) builtin(fr *Frame, st *State, name string, c *ssa.CallCommon, in s
 		if len(c.Args) > 0 {
 			a := s.P.Eval(fr, c.Args[0])
 			if a.K == KPath {
+				if _, f, _, ok := a.LastField(); ok {
+					s.event(fr, st, "delete:"+f.Owner+"."+f.Field.Name(), in)
+				}
 				s.access(fr, st, a.with(Seg{Elem: true}), true, in)
 				s.markDirty(fr, st, a.with(Seg{Elem: true}), nil, in)
 			}
@@ -2377,5 +2393,140 @@ func (s *Sim) dropFrameObjects(fr *Frame, r *ssa.Return, st *State) {
 		if strings.HasPrefix(k, prefix) {
 			delete(st.cells, k)
 		}
+	}
+}
+
+// event feeds the atomic-section (AT) and require (REQ) rules.
+func (s *Sim) event(fr *Frame, st *State, ev string, in ssa.Instruction) {
+	fn := FuncName(in.Parent())
+	if s.trace != "" && strings.Contains(ev, s.trace) {
+		fmt.Fprintf(os.Stderr, "  EVENT %s in %s held=%s marks=%v\n", ev, fn, st.heldString(), st.marks)
+	}
+	for i := range s.T.Sections {
+		r := &s.T.Sections[i]
+		if r.To == ev && (r.Func == "" || r.Func == fn) {
+			lk, has := st.marks[r.ID]
+			ok := false
+			if has {
+				for _, h := range st.held {
+					if h.Key == lk {
+						ok = true
+					}
+				}
+			}
+			det := r.From + " and " + r.To + " lie in one uninterrupted hold of " + r.Lock
+			if !ok {
+				det = r.To + " is not in the same uninterrupted hold of " + r.Lock + " as a preceding " + r.From + " (" + r.Why + "); held " + st.heldString()
+			}
+			s.ob("AT", in.Parent(), r.ID, ok, det, in)
+		}
+	}
+	for i := range s.T.Sections {
+		r := &s.T.Sections[i]
+		if r.From == ev && (r.Func == "" || frameHas(fr, r.Func)) {
+			for _, h := range st.held {
+				if h.Class == r.Lock {
+					st.marks[r.ID] = h.Key
+				}
+			}
+		}
+	}
+	for i := range s.T.Requires {
+		r := &s.T.Requires[i]
+		if r.Event == ev && (r.Func == "" || r.Func == fn) {
+			if r.Param != "" {
+				applies := false
+				if fr != nil {
+					for _, q := range fr.Fn.Params {
+						if q.Name() == r.Param {
+							pv := s.P.Eval(fr, q)
+							if pv.K == KPath && len(pv.Segs) == 0 {
+								if m, has := st.sg[pv.Key()]; has && m&^r.SignMask == 0 {
+									applies = true
+								}
+							}
+						}
+					}
+				}
+				if !applies {
+					continue
+				}
+			}
+			ok := false
+			for _, h := range st.held {
+				if h.Class == r.Lock && (!r.Write || h.Mode == 'W') {
+					ok = true
+				}
+			}
+			det := ev + " happens with " + r.Lock + " held"
+			if !ok {
+				det = ev + " happens without " + r.Lock + " held (" + r.Why + "); held " + st.heldString()
+			}
+			s.ob("REQ", in.Parent(), r.ID, ok, det, in)
+		}
+	}
+}
+
+func (s *Sim) clearMarks(st *State, lockKey string) {
+	for id, k := range st.marks {
+		if k == lockKey {
+			delete(st.marks, id)
+		}
+	}
+}
+
+func frameHas(fr *Frame, name string) bool {
+	for f := fr; f != nil; f = f.Parent {
+		if FuncName(f.Fn) == name {
+			return true
+		}
+	}
+	return false
+}
+
+// onPanic unwinds: every pending deferred call (all frames, LIFO) is executed for its lock effects;
+// a lock of this root still held afterwards would make every later call block instead of panicking.
+func (s *Sim) onPanic(fr *Frame, pn *ssa.Panic, st *State) {
+	if len(st.held) == 0 {
+		return
+	}
+	x := st.clone()
+	states := []*State{x}
+	for guard := 0; guard < 64; guard++ {
+		var next []*State
+		progressed := false
+		for _, y := range states {
+			if len(y.defers) == 0 {
+				next = append(next, y)
+				continue
+			}
+			progressed = true
+			d := y.defers[len(y.defers)-1]
+			y.defers = y.defers[:len(y.defers)-1]
+			next = append(next, s.doCall(d.fr, d.in, &d.in.Call, y, nil)...)
+		}
+		states = next
+		if !progressed {
+			break
+		}
+	}
+	entry := map[string]bool{}
+	if s.cur != nil {
+		for _, h := range s.cur.Entry {
+			entry[h.Key] = true
+		}
+	}
+	for _, y := range states {
+		var leaked []string
+		for _, h := range y.held {
+			if !entry[h.Key] && h.Mode != 'O' {
+				leaked = append(leaked, h.Class+":"+string(h.Mode))
+			}
+		}
+		det := "deferred calls release every lock on this panic exit"
+		if len(leaked) > 0 {
+			det = "panic exit leaves {" + strings.Join(leaked, ", ") + "} held (no deferred release): later calls block forever instead of failing"
+		}
+		s.ob("PX", pn.Parent(), "panic-exit", len(leaked) == 0, det, pn)
 	}
 }
